@@ -261,8 +261,6 @@ def ident(x):
 
 def fam_fluent():
     for N in NS:
-        if N == 1:
-            continue
         for via in ("source", "map", "reduce"):
             def build(N=N, via=via):
                 coords = list(range(N))
@@ -330,6 +328,20 @@ def check_fluent(tag, rp, build, out):
     except Exception as e:
         out.append(({"monitor": "fluent_raised", "cause": type(e).__name__}, f"{tag}: {e!r}"[:300], rp))
         return
+    if rp["N"] == 1:
+        # yields with ONE coordinate: the node gets the single default output, and a single output means "the call
+        # result" to graph and runner alike -- here a generator object, not the value it yields
+        import types as _types
+
+        try:
+            vals1 = eval_graph(a.graph())
+        except Exception as e:
+            out.append(({"monitor": "fluent_raised", "cause": f"reference evaluation: {type(e).__name__}"}, f"{tag}: {e!r}"[:300], rp))
+            return
+        if any(isinstance(v, _types.GeneratorType) for v in vals1.values()):
+            out.append(({"monitor": "value_mismatch", "cause": "fluent: a yields dimension with a single coordinate binds the generator object itself instead of the value it yields"},
+                        f"{tag}: coordinate k=0 holds {next(v for v in vals1.values() if isinstance(v, _types.GeneratorType))!r}", rp))
+            return
     # graph level, independent of the runner: by the reference evaluation (i-th yielded value <-> i-th declared output)
     # the consumer at coordinate i of the yields dimension must receive the i-th yielded value
     try:
